@@ -248,6 +248,17 @@ def run_shard(ctx):
             except sgr.SgrError as err:
                 ctx.violation("malformed-or-bleeding-sequence", {"err": str(err), "out": str(made)[:80]}, case)
         if len(chunks) <= 5:
+            # ... and cut / padded to a width the way table cells are (the cut may fall inside a chunk)
+            n = rng.randint(0, len(mmodel) + 2)
+            cut = CHText.make(CHText.resize_chunks_list([c for c, _, _ in chunks], n))
+            cmodel = (mmodel + [(" ", sgr.DEFAULT)] * n)[:n]
+            ctx.count("chunk_lists_resized")
+            try:
+                if sgr.cells(str(cut)) != cmodel:
+                    ctx.violation("resized-chunk-list-shows-wrong-colours", {"out": str(cut)[:120], "width": n}, case)
+            except sgr.SgrError as err:
+                ctx.violation("malformed-or-bleeding-sequence", {"err": str(err), "out": str(cut)[:80]}, case)
+        if len(chunks) <= 5:
             # the same chunks assembled by join on a coloured separator (a chunk or a text)
             (sep, sep_text, sep_want), items = chunks[0], chunks[1:]
             joiner = sep if rng.random() < 0.5 else CHText(sep)
